@@ -206,8 +206,13 @@ def run_group(group, tier, seed, extra_env=None, force=False):
             open(os.path.join(out, 'harness.log'), 'w').write(o)
             raise RuntimeError(f'harness failed on group {group}: rc={rc}: {o[-400:]}')
         m0every = M0_EVERY.get(group, {}).get(tier, 1)
+        seed_args = []
+        if group == 'zobrist':
+            sd = source_seed()
+            if sd is not None:
+                seed_args = [f'seed={sd}']
         rc, o2 = sh([DRIVER_BIN, os.path.join(out, 'keys.txt'), os.path.join(out, 'ops.txt'), os.path.join(out, 'model.txt')] + (['lite'] if group == 'pgn' else [])
-                    + ([f'm0every={m0every}'] if m0every > 1 else []), timeout=7200)
+                    + ([f'm0every={m0every}'] if m0every > 1 else []) + seed_args, timeout=7200)
         t2 = time.time()
         if rc != 0:
             raise RuntimeError(f'driver failed on group {group}: rc={rc}: {o2[-400:]}')
@@ -305,6 +310,22 @@ def compare_group(prop, group, rundir, stats):
             iv, mv, sv = I.get(k), M1.get(k), M0.get(k)
             if iv is None and mv is None:
                 continue
+            if op == 'zob' and k == 'keys' and iv is not None:
+                rngv = M1.get('rng')
+                stats.setdefault('key_table', {})
+                stats['key_table'].update(source_seed=source_seed(), equals_committed_table=(iv == mv),
+                                          equals_modelled_generator_on_source_seed=(None if rngv is None else iv == rngv),
+                                          committed_table_proved_from_seed='theorem Chess.C07.rng_table_eq (SEED 1370359990842121)')
+            if op == 'zob' and k == 'keys' and iv != mv and iv is not None:
+                # the published table differs from the committed one: a harmless change (another seed) unless the NEW table
+                # violates the property; re-run the kernel checks on the dumped table (regenerated proof obligation)
+                ok_keys, detail = reprove_keys(iv)
+                stats['key_table'].update(differs_from_committed=True, **{kk: vv for kk, vv in detail.items() if kk != 'output'})
+                if not ok_keys:
+                    fnd = Finding(prop, group, lineno, opl, op, k, short(iv, 300), json.dumps(detail)[:1500], None,
+                                  'decisive' if detail.get('reason') == 'key table is not good' else 'corr', list(session_ops))
+                    findings.append(fnd)
+                continue
             if op in classes_only and k in classes_only[op]:
                 iv, mv = klass(iv), klass(mv)
                 sv = klass(sv) if sv is not None else None
@@ -401,6 +422,81 @@ def manifest_entry(prop):
         if c['property_id'] == prop:
             return c
     return None
+
+
+def source_seed():
+    """translator for one constant: `const SEED: u64 = N;` in /repo/src/zobrist.rs (None if the source no longer has that shape)"""
+    try:
+        txt = open(os.path.join(REPO, 'src', 'zobrist.rs')).read()
+    except OSError:
+        return None
+    m = re.search(r'const\s+SEED\s*:\s*u64\s*=\s*([0-9_]+)\s*;', txt)
+    return int(m.group(1).replace('_', '')) if m else None
+
+
+DUMPED_KEYS_TEMPLATE = """import Chess.Props.C07Keys
+/-! GENERATED at run time by lib/checklib.py: the key table dumped from the running implementation differs from the committed
+one (chess/Chess/Gen/ZobristKeys.lean); the two kernel checks of C07 (non-zero, pairwise distinct) are re-run on THIS table. -/
+namespace Chess.Dumped
+def keysBig : Nat := 0x%x
+def zkey (k : Nat) : Nat := Nat.land (Nat.shiftRight keysBig (64 * k)) 18446744073709551615
+set_option maxRecDepth 100000 in
+theorem keys_nonzero : Chess.C07.allN (fun k => !(Nat.beq (zkey k) 0)) 785 = true := by decide +kernel
+set_option maxRecDepth 100000 in
+theorem keys_distinct : Chess.C07.allN (fun i => Chess.C07.allN (fun j => !(Nat.beq (zkey i) (zkey j))) i) 785 = true := by decide +kernel
+theorem keys_good : Chess.C07.KeysGood zkey := by
+  constructor
+  · intro i hi h
+    have := Chess.C07.allN_spec _ 785 keys_nonzero i hi
+    simp [h] at this
+  · intro i j hji hi h
+    have h1 := Chess.C07.allN_spec _ 785 keys_distinct i hi
+    have h2 := Chess.C07.allN_spec _ i h1 j hji
+    rw [h] at h2
+    simp at h2
+end Chess.Dumped
+#print axioms Chess.Dumped.keys_good
+"""
+
+
+def reprove_keys(keys_csv):
+    """C07, regenerated proof obligation: the implementation's key table changed (e.g. another seed).  Re-check KeysGood on the
+    dumped table with the kernel.  Returns (ok, detail)."""
+    try:
+        keys = [int(x, 16) for x in keys_csv.split(',')]
+    except ValueError:
+        return False, dict(reason='unparsable key dump')
+    if len(keys) != 785:
+        return False, dict(reason=f'{len(keys)} keys dumped, 785 expected')
+    # failing-input search first (cheap): a zero key or a duplicate pair is the replay
+    zeros = [i for i, k in enumerate(keys) if k == 0]
+    seen = {}
+    dups = []
+    for i, k in enumerate(keys):
+        if k in seen:
+            dups.append((seen[k], i, hex(k)))
+        seen.setdefault(k, i)
+    if zeros or dups:
+        return False, dict(reason='key table is not good', zero_key_indices=zeros[:10], duplicate_pairs=dups[:10],
+                           layout='index 0 black-to-move; 1+c*384+p*64+s piece keys; 769+c*4+r castling keys; 777+f en-passant file keys')
+    big = 0
+    for i, k in enumerate(keys):
+        big |= k << (64 * i)
+    h = hashlib.sha256(keys_csv.encode()).hexdigest()[:16]
+    d = os.path.join(CACHE, 'keys')
+    os.makedirs(d, exist_ok=True)
+    okp = os.path.join(d, h + '.ok')
+    if os.path.exists(okp):
+        return True, dict(reason='dumped table re-proved (cached)', table_sha=h)
+    f = os.path.join(d, f'DumpedKeys_{h}.lean')
+    open(f, 'w').write(DUMPED_KEYS_TEMPLATE % big)
+    rc, out = sh(f'lake env lean {f} 2>&1', cwd=LEAN, timeout=1800)
+    m = re.search(r"'Chess.Dumped.keys_good' (does not depend on any axioms|depends on axioms: \[([^\]]*)\])", out.replace('\n', ' '))
+    ax = [] if (m is None or m.group(2) is None) else [a.strip() for a in m.group(2).split(',')]
+    if rc == 0 and m and set(ax) <= ALLOWED_AXIOMS:
+        open(okp, 'w').write('ok')
+        return True, dict(reason='dumped table re-proved by the kernel', table_sha=h, lean_file=f)
+    return False, dict(reason='kernel check of the dumped table failed', output=out[-1500:], lean_file=f)
 
 
 def extra_checks(prop, rundirs, stats):
@@ -552,7 +648,7 @@ def run_property(prop, tier, seed):
         per_op=stats['per_op'], groups=list(spec['groups']), timing=timing, generator=gen,
         model_disagreements=len(model_dis), exhaustive=bool(reg.get('exhaustive_tie', False)),
     )
-    for k in ('transposition_keys', 'distinct_moves_roundtripped', 'invalid_positions'):
+    for k in ('transposition_keys', 'distinct_moves_roundtripped', 'invalid_positions', 'key_table'):
         if k in stats:
             cov[k] = stats[k]
     if level != 'proof' or obligations == 0:
